@@ -5,7 +5,7 @@
      CPython's unicode_repr restricted to Latin-1 (quote choice, backslash escapes, \xNN for non-printable code
      points; printable Latin-1 = 32..126 and 161..255 without 173 — validated against str.isprintable by the
      correspondence check), `None` for a missing name.
-   * `format_named` : `template.format(**fields)` on the fragment a class template can contain: literal text,
+   * `format_named` : `template.format of keyword fields` on the fragment a class template can contain: literal text,
      `{{`, `}}`, `{identifier}`.  A lone `}` / an unterminated field / `{` inside a field → ValueError, an unknown
      field → KeyError, an empty or numeric field → IndexError (there are no positional arguments); any other
      field syntax (attribute, index, conversion, format spec) → PUnmodelled.
@@ -53,7 +53,7 @@ Fixpoint join_sep (sep : string) (l : list string) : string :=
   end.
 Definition py_repr_names (l : list (option string)) : string := "[" ++ join_sep ", " (map py_repr_name l) ++ "]".
 
-(* ---------- template.format(**fields) ---------- *)
+(* ---------- template.format of keyword fields ---------- *)
 Fixpoint assoc_str (k : string) (l : list (string * string)) : option string :=
   match l with
   | [] => None
@@ -118,7 +118,7 @@ Fixpoint lines_keepends (cur : string) (s : string) : list string :=
     else lines_keepends (String c cur) r
   end.
 Definition indent_line (prefix line : string) : string := if is_blank line then line else prefix ++ line.
-Definition indent (prefix text : string) : string := concat "" (map (indent_line prefix) (lines_keepends "" text)).
+Definition indent (prefix text : string) : string := String.concat "" (map (indent_line prefix) (lines_keepends "" text)).
 Definition eq_prefix : string := "        ".
 
 (* ---------- default_converter ---------- *)
